@@ -210,6 +210,7 @@ template <typename V>
 ints vals(V const &v)
 {
   ints r;
+  r.reserve(V::static_size::value);
   for (sz i = 0; i < V::static_size::value; ++i)
     r.push_back(static_cast<long>(v.get_unsafe(i)));
   return r;
@@ -222,6 +223,7 @@ ints mvals(M const &m)
   constexpr sz R = M::static_rows::value;
   constexpr sz C = M::static_columns::value;
   ints g;
+  g.reserve(R * C);
   [&]<std::size_t... A>(std::index_sequence<A...>) { (g.push_back(static_cast<long>(fm::matrix::at_r_c<A / C, A % C>(m))), ...); }(
       std::make_index_sequence<R * C>{});
   return g;
@@ -640,6 +642,7 @@ inline std::uint64_t mix(std::uint64_t h, long x) { return (h ^ static_cast<std:
 ints enum_a(sz c, unsigned idx)
 {
   ints r;
+  r.reserve(c);
   for (sz j = 0; j < c; ++j)
   {
     r.push_back(static_cast<long>(idx % 4U) - 1);
@@ -650,6 +653,7 @@ ints enum_a(sz c, unsigned idx)
 ints enum_bq(sz c, unsigned idx)
 {
   ints r;
+  r.reserve(c);
   for (sz j = 0; j < c; ++j)
   {
     r.push_back(idx % 2U == 1U ? 2 : -1);
@@ -660,6 +664,7 @@ ints enum_bq(sz c, unsigned idx)
 ints derive_ma(sz r, ints const &a, ints const &b)
 {
   ints m;
+  m.reserve(r * a.size());
   for (sz i = 0; i < r; ++i)
     for (std::size_t j = 0; j < a.size(); ++j)
       m.push_back(i == 0 ? a[j] : i == 1 ? b[j] : i == 2 ? a[j] + 2 * b[j] + 3 : 2 * a[j] - b[j] - 5);
@@ -668,6 +673,7 @@ ints derive_ma(sz r, ints const &a, ints const &b)
 ints derive_mb(sz r, ints const &a, ints const &b)
 {
   ints m;
+  m.reserve(r * a.size());
   for (sz i = 0; i < r; ++i)
     for (std::size_t j = 0; j < a.size(); ++j)
       m.push_back(10 * (static_cast<long>(i) + 1) + static_cast<long>(j) + b[j] - a[j]);
@@ -677,6 +683,7 @@ ints derive_mb(sz r, ints const &a, ints const &b)
 ints enum_bs(sz c, unsigned idx)
 {
   ints r;
+  r.reserve(c);
   for (sz j = 0; j < c; ++j)
     r.push_back((j + idx) % 2U == 1U ? 2 : -1);
   return r;
